@@ -8,9 +8,12 @@ def run(tier, seed):
         mc_actions=("DownFulfil", "DownFail", "UpPreimageComplete", "DownRaaSubmit", "DownRaaComplete", "UpClaim", "UpFail", "Crash"),
         profiles=[("default", 3, 120), ("async", 3, 150), ("crash", 3, 100)],
         thorough_profiles=[("default", 3, 1000), ("async", 3, 1500), ("crash", 3, 1000)],
-        families=[("failwin", 250), ("fanin", 250), ("skim", 100), ("fwdlate", 100), ("chainsettle", 80), ("badonion", 100)], thorough_families=[("failwin", 2000), ("fanin", 2000), ("skim", 800), ("fwdlate", 600), ("chainsettle", 400), ("badonion", 800)],
+        families=[("failwin", 250), ("fanin", 250), ("skim", 100), ("fwdlate", 100), ("chainsettle", 80), ("badonion", 100), ("dustflood", 120)], thorough_families=[("failwin", 2000), ("fanin", 2000), ("skim", 800), ("fwdlate", 600), ("chainsettle", 400), ("badonion", 800), ("dustflood", 1000)],
         assumptions=cc.COMMON_ASSUMPTIONS + [
             "both links stay off-chain (on-chain resolution of a forwarded HTLC is covered by the on-chain checks "
             "C06-C08); when a channel of the forwarding node was closed after a stale-manager restart the "
             "fail-back / balance clauses are not judged for that node",
-            "the forwarding node's policy (fee base/ppm, cltv delta) is read from its configuration at start"])
+            "the forwarding node's policy (fee base/ppm, cltv delta) is read from its configuration at start",
+            "dust exposure: only HTLCs below both sides' plain dust limits that are not yet being removed are summed (an "
+            "under-approximation of what the library counts), against the weakest limit the node had so far in the run; "
+            "the rule is about HTLCs the node OFFERS (its own or forwarded), not about what its peer adds"])
